@@ -11,8 +11,8 @@ import numpy as np
 from mc.core import CACHE_DIR, VERIF, Ctx, HarnessError
 
 #: checks whose quick tier is re-run wholesale under bounds checking
-WHOLESALE_QUICK = ["C06", "C09", "C15", "C16", "C20"]
-WHOLESALE_THOROUGH = ["C05", "C10", "C11", "C14", "C02", "C08", "C07"]
+WHOLESALE_QUICK = ["C06", "C09", "C10", "C15", "C16", "C20"]
+WHOLESALE_THOROUGH = ["C05", "C11", "C14", "C02", "C08", "C07"]
 BODIES = ["pack_trees", "pack_objectives", "ttp", "extremes"]
 
 
